@@ -97,6 +97,7 @@ var snippets = []string{
 	"@skip", "@skip(if: 5)", "@include(if: \"x\")", "@unknown(x: 1)", "@skip(if: $nope)", "@skip(if: true) @skip(if: false)", "@include(if: null)",
 	"(x: 1, x: 2)", "(x: {a: 1})", "(x: [1, 2])", "(x: null)", "(x: RED)", "(x: 99999999999999999999)", "(x: 1.5e400)", "(x: \"\\u12\")", "(x: \"\\q\")", "(x: \"\"\"block\"\"\")", "(s: $v, n: $v)",
 	"__typename", "__schema { types { name } }", "__type(name: \"O1\") { name }", "id: id", "id: name", "a: allO1 { id } a: allO2 { id }",
+	"f0(x: [1, 2]) f0(x: [1, 2])", "z: id z: id", "z: f0(x: [1]) z: f0(x: [2])", "f0(x: $v) f0(x: $v)", "f0(x: {a: [1]}) f0(x: {a: [1]})", "f0(x: [[1], []]) ... on O1 { f0(x: [[1], []]) }",
 	"{", "}", "{}", "#comment\n", ",,,", "\ufeff", "\x00", "query", "mutation", "subscription", "fragment", "on",
 }
 
@@ -116,7 +117,13 @@ func genDoc(t *rapid.T) (string, map[string]interface{}) {
 	}
 	n := rapid.IntRange(0, 4).Draw(t, "nmut")
 	for i := 0; i < n; i++ {
-		switch rapid.IntRange(0, 5).Draw(t, "mutkind") {
+		switch rapid.IntRange(0, 6).Draw(t, "mutkind") {
+		case 6: // duplicate a range in place (same selection, alias or argument twice)
+			if len(text) > 2 {
+				a := rapid.IntRange(0, len(text)-2).Draw(t, "dupa")
+				b := rapid.IntRange(a+1, min(len(text), a+40)).Draw(t, "dupb")
+				text = text[:b] + " " + text[a:b] + text[b:]
+			}
 		case 0, 1: // insert a snippet after some '{' or identifier boundary
 			var pos []int
 			for j, ch := range text {
